@@ -37,7 +37,7 @@ def walker_enqueue(F, R, bodies, tag="C15-a", pid="C15"):
         for n in b["_nodes"]:
             if n.get("k") == "MethodCall" and n["name"] in ("push_front", "push_back", "push") and (field_of(n["recv"]) == "visiting" or (peel(n["recv"]).get("res") == "local" and tyc(F, n["recv"], "VecDeque<&"))):
                 pushes.append(n)
-    R.floor("C15-a work-list pushes", len(pushes), 5)
+    R.floor(tag + " work-list pushes", len(pushes), 5)
     for p in pushes:
         key = peel_value(p["args"][0])
         g = guards_at(F, p)
@@ -62,7 +62,7 @@ def walker_enqueue(F, R, bodies, tag="C15-a", pid="C15"):
         for n in b["_nodes"]:
             if n.get("k") == "MethodCall" and n["name"] == "insert" and (field_of(n["recv"]) == "seen" or (peel(n["recv"]).get("res") == "local" and tyc(F, n["recv"], "HashSet<&"))):
                 inserts.append(n)
-    R.floor("C15-a seen.insert sites", len(inserts), 5)
+    R.floor(tag + " seen.insert sites", len(inserts), 5)
     for ins in inserts:
         key = peel_value(ins["args"][0])
         iff = None
@@ -96,11 +96,8 @@ def walker_enqueue(F, R, bodies, tag="C15-a", pid="C15"):
 
 
 
-def run(F, R, tier):
-    bodies = [b for b in F.bodies if (b.get("self_adt") == IT) and not b.get("derived")]
-    R.floor("C15 ModuleEntryIterator bodies", len(bodies), 5)
-    walker_enqueue(F, R, bodies)
-
+def walker_selection(F, R, bodies, tag="C15-b"):
+    """which edges / modules the walk selects per graph kind and option"""
     # ---------------- C15-b ------------------------------------------------
     n_type_push = 0
     n_code_push = 0
@@ -112,16 +109,16 @@ def run(F, R, tier):
                     n_type_push += 1
                     g = guards_at(F, n)
                     ok = any(x.kind == "cond" and x.pol and (x.node.get("fn") or "").endswith("GraphKind::include_types") for x in g)
-                    R.ob("C15-b", "type resolution followed only when types are included [%s]" % b["path"].split("::")[-1], ok,
+                    R.ob(tag, "type resolution followed only when types are included [%s]" % b["path"].split("::")[-1], ok,
                          "`maybe_type` is followed without `kind.include_types()`: code-only walks would visit type-only modules", where(n))
                 elif a.get("k") == "Field" and a["field"] == "maybe_code":
                     n_code_push += 1
                     g = guards_at(F, n)
                     conds = [x for x in g if x.kind == "cond" and mentions_call(x.node, ["GraphKind::include_types"])]
-                    R.ob("C15-b", "code resolution is always followed [%s]" % b["path"].split("::")[-1], not conds,
+                    R.ob(tag, "code resolution is always followed [%s]" % b["path"].split("::")[-1], not conds,
                          "`maybe_code` is only followed under a graph-kind condition", where(n))
-    R.floor("C15-b type-resolution pushes", n_type_push, 2)
-    R.floor("C15-b code-resolution pushes", n_code_push, 2)
+    R.floor(tag + " type-resolution pushes", n_type_push, 2)
+    R.floor(tag + " code-resolution pushes", n_code_push, 2)
     amd = F.body(IT + "::analyze_module_deps")
     for n in amd["_nodes"]:
         if n.get("k") == "MethodCall" and n["name"] == "push" and tyc(F, n["recv"], "Vec<&graph::Resolution>"):
@@ -132,36 +129,46 @@ def run(F, R, tier):
                     t = expr_text(x.node)
                     if "is_dynamic" in t and "follow_dynamic" in t and "!" in t:
                         ok = True
-            R.ob("C15-b", "dependencies are followed only if static or follow_dynamic", ok,
+            R.ob(tag, "dependencies are followed only if static or follow_dynamic", ok,
                  "dependency resolutions are followed without `!dep.is_dynamic || self.follow_dynamic`", where(n))
     nx = F.body("<graph::ModuleEntryIterator as std::iter::Iterator>::next")
     # types dependency of a JS module
     tdeps = [n for n in nx["_nodes"] if n.get("k") == "Field" and n["field"] == "maybe_types_dependency"]
-    R.floor("C15-b reads of maybe_types_dependency in next", len(tdeps), 1)
+    R.floor(tag + " reads of maybe_types_dependency in next", len(tdeps), 1)
     for n in tdeps:
         g = guards_at(F, n)
         ok = any(x.kind == "cond" and x.pol and (x.node.get("fn") or "").endswith("GraphKind::include_types") for x in g)
-        R.ob("C15-b", "types dependency followed only when types are included", ok, "maybe_types_dependency is followed in code-only walks", where(n))
+        R.ob(tag, "types dependency followed only when types are included", ok, "maybe_types_dependency is followed in code-only walks", where(n))
     # TypesOnly substitution: `continue` only under kind == TypesOnly
     conts = [n for n in nx["_nodes"] if n["k"] == "Continue"]
     for c in conts:
         g = guards_at(F, c)
         ok = any(x.kind == "cond" and x.pol and any(ctor_of(y) == "graph::GraphKind::TypesOnly" for y in walk(x.node)) for x in g)
-        R.ob("C15-b", "a module is skipped only in types-only walks", ok, "`continue` (skip yielding a module) is not guarded by kind == TypesOnly", where(c))
+        R.ob(tag, "a module is skipped only in types-only walks", ok, "`continue` (skip yielding a module) is not guarded by kind == TypesOnly", where(c))
         sub = any(x.kind == "pat" and x.pol and "graph::Resolution::Ok" in pat_text(x.pat) for x in g) or any(x.kind == "pat" and x.pol and any(y.get("k") == "MethodCall" and y["name"] in ("ok", "maybe_specifier") for y in walk(x.scrut)) for x in g)
         unchk = any(x.kind == "cond" and not x.pol and (x.node.get("fn") or "").endswith("is_checkable") for x in g)
-        R.ob("C15-b", "a code module is replaced by its types dependency only when that dependency resolved (else only unchecked JS is skipped)", sub or unchk,
+        R.ob(tag, "a code module is replaced by its types dependency only when that dependency resolved (else only unchecked JS is skipped)", sub or unchk,
              "a module is skipped in a types-only walk although its types dependency did not resolve: the failed types resolution and everything behind the module disappear from the walk", where(c))
     # fast check deps
     fc = [n for n in nx["_nodes"] if callee_matches(n, ["Module::dependencies_prefer_fast_check"])]
-    R.floor("C15-b fast-check dependency selection", len(fc), 1)
+    R.floor(tag + " fast-check dependency selection", len(fc), 1)
     for n in fc:
         g = expand_local_guards(F, guards_at(F, n), nx)
         ok = any(x.kind == "cond" and x.pol and peel(x.node).get("field") == "prefer_fast_check_graph" for x in g) \
             and any(x.kind == "cond" and x.pol and (x.node.get("fn") or "").endswith("GraphKind::include_types") for x in g) \
             and any(x.kind == "cond" and x.pol and (x.node.get("fn") or "").endswith("is_checkable") for x in g)
-        R.ob("C15-b", "fast-check dependencies only when requested, types are included and the module is type-checkable", ok,
+        R.ob(tag, "fast-check dependencies only when requested, types are included and the module is type-checkable", ok,
              "dependencies_prefer_fast_check is selected without `kind.include_types() && is_checkable(..) && prefer_fast_check_graph`: a code-only walk would follow the pruned fast-check dependency set and miss implementation-only imports", where(n))
+
+
+
+def run(F, R, tier):
+    bodies = [b for b in F.bodies if (b.get("self_adt") == IT) and not b.get("derived")]
+    R.floor("C15 ModuleEntryIterator bodies", len(bodies), 5)
+    walker_enqueue(F, R, bodies)
+
+    walker_selection(F, R, bodies)
+    nx = F.body("<graph::ModuleEntryIterator as std::iter::Iterator>::next")
 
     # ---------------- C15-c ------------------------------------------------
     ms = [n for n in nx["_nodes"] if n["k"] == "Match" and mentions_field(n["scrut"], "previous_module")]
